@@ -23,13 +23,14 @@ ASSUMPTIONS = [
     "behaviour = stdout + exception type of the driver that calls the target on inputs reaching every branch",
 ]
 OUTSIDE = "programs outside corpus K03; staticmethod/classmethod kinds; identifiers longer than one letter"
-BOUNDS = {"quick": {"corpus": "K03[:7]"}, "thorough": {"corpus": "K03"}}
+BOUNDS = {"quick": {"corpus": "K03[:8]"}, "thorough": {"corpus": "K03"}}
 
 K03 = [
     Skeleton("e01_conditional_write", {"main.py": "def fun({0}):\n    {1} = 0\n    if {0} > 1:\n        {1} = {0} * 2\n    {2} = {1} + 1\n    return {2} + {0}\nprint(fun(1), fun(3))\n"}),
     Skeleton("e02_loop_carried", {"main.py": "def fun({0}):\n    {1} = 0\n    for {2} in range({0}):\n        {1} = {1} + {2}\n        {3} = {1} * 2\n    return {1}\nprint(fun(0), fun(3))\n"}),
     Skeleton("e11_loop_conditional_carry", {"main.py": "def fun({0}):\n    {1} = 0\n    for {2} in range({0}):\n        print({1})\n        if {2} > 0:\n            {1} = {1} + {2}\n    return 0\nprint(fun(3))\n"}),
     Skeleton("e12_loop_else_jump", {"main.py": "def fun({0}):\n    {1} = 0\n    for {2} in range({0}):\n        for {3} in range({2}):\n            if {3} > 1:\n                break\n        else:\n            continue\n        {1} += {2}\n    return {1}\nprint(fun(5))\n"}),
+    Skeleton("e13_similar_in_nested_last_block", {"main.py": "def fun({0}, {1}):\n    {2} = 0\n    if {0}:\n        if {1}:\n            {2} = 1\n            {2} = {0} * {1} + {2}\n    return {0} * {1} + {2}\nprint(fun(0, 3), fun(1, 2), fun(1, 0))\n"}),
     Skeleton("e03_augassign_early_return", {"main.py": "def fun({0}):\n    {1} = 1\n    if {0} < 0:\n        return -1\n    {1} += {0}\n    return {1}\nprint(fun(-1), fun(2))\n"}),
     Skeleton("e04_method_self", {"main.py": "class kls:\n    def __init__(self):\n        self.val = 2\n    def fun(self, {0}):\n        {1} = self.val + {0}\n        {2} = {1} * {0}\n        return {2}\nprint(kls().fun(3))\n"}),
     Skeleton("e05_module_level", {"main.py": "{0} = 2\n{1} = {0} + 1\n{2} = {1} * {0}\nprint({2})\n"}, tags=("module",)),
@@ -87,7 +88,7 @@ def regions_of(src, target="fun", module_level=False):
 
 
 def corpus(tier):
-    return K03[:7] if tier == "quick" else K03
+    return K03[:8] if tier == "quick" else K03
 
 
 def instances(tier):
